@@ -2,11 +2,16 @@
    [run engine case] for the models, [oracle engine case observation] for the
    property oracles (Spec side).  Engine numbers are listed in tools/engines.py. *)
 From MV Require Import Base.Prelude Model.Topic Spec.SpecTopic Model.TopicOracle Model.EnginesV3 Model.EnginesV5 Model.RespQueue Model.RespOracle.
+From MV Require Model.Sink.   (* qualified: Sink.v has many short names *)
+From MV Require Model.Limiter.   (* qualified as well *)
 
 Definition run (e : N) (c : list (list N)) : list (list N) :=
   match e with
   | 1 => run_topic c
   | 30 => run_respq c
+  | 31 => Sink.run_sink3 c
+  | 32 => Sink.run_sink5 c
+  | 35 => Limiter.run_limiter c
   | _ => if (10 <=? e) && (e <? 20) then run_v3 e c
          else if (20 <=? e) && (e <? 30) then run_v5 e c
          else [[98]]
